@@ -76,8 +76,9 @@ type c16cfg struct {
 // under test, everything before is the history ("!start" = run the program in a new thread,
 // "!release" = let threads blocked in hold() go on, anything else = a command line).
 type c16desc struct {
-	Cfg    c16cfg   `json:"cfg"`
-	Script []string `json:"script"`
+	Cfg    c16cfg        `json:"cfg"`
+	Script []string      `json:"script"`
+	Stream *c16streamCfg `json:"stream,omitempty"` // instead of a script: a stream of commands against running threads (c16stream.go)
 }
 
 type c16thread struct {
@@ -442,7 +443,7 @@ func c16run(c *Ctx, cfg c16cfg, script []string, from int) {
 	sc := c16newScn(cfg)
 	defer func() {
 		if !sc.dead && sc.teardown() {
-			c.Violate("debugger-stops-answering", "StopThreads at the end of the scenario did not return within the time bound (a debugger or thread condition lock was left held by an earlier command)", c16desc{cfg, script})
+			c.Violate("debugger-stops-answering", "StopThreads at the end of the scenario did not return within the time bound (a debugger or thread condition lock was left held by an earlier command)", c16desc{Cfg: cfg, Script: script})
 		}
 	}()
 	pre, msg := sc.settle()
@@ -466,7 +467,7 @@ func c16run(c *Ctx, cfg c16cfg, script []string, from int) {
 		case "!release":
 			sc.releaseHolds()
 		default:
-			desc := c16desc{cfg, script[:i+1]}
+			desc := c16desc{Cfg: cfg, Script: script[:i+1]}
 			var ok bool
 			if post, ok = c16line(c, sc, pre, line, desc, i >= from); !ok {
 				return
@@ -483,7 +484,7 @@ func c16run(c *Ctx, cfg c16cfg, script []string, from int) {
 				// a thread neither suspended nor finished in time (C15's lost wake-up): not this property
 				c.Dist["scenario_abandoned_unsettled"]++
 			} else if i >= from {
-				c.Violate(c16statusKey(msg), "a \"status\" command after the line "+msg, c16desc{cfg, script[:i+1]})
+				c.Violate(c16statusKey(msg), "a \"status\" command after the line "+msg, c16desc{Cfg: cfg, Script: script[:i+1]})
 				sc.dead = strings.HasPrefix(msg, "did not return")
 			}
 			return
@@ -789,18 +790,22 @@ func runC16(c *Ctx) error {
 		if err := c.LoadReplay(&d); err != nil {
 			return err
 		}
+		if d.Stream != nil {
+			c16streamRun(c, *d.Stream, 0)
+			return nil
+		}
 		c16run(c, d.Cfg, d.Script, len(d.Script)-1)
 		return nil
 	}
 
 	for w := range interpreter.DebugCommandsMap {
 		if c16cmdCtor[w] == "" {
-			c.Violate("model-vocabulary", "command "+w+" of DebugCommandsMap is not in the model", c16desc{c16cfg{Global: true}, []string{w}})
+			c.Violate("model-vocabulary", "command "+w+" of DebugCommandsMap is not in the model", c16desc{Cfg: c16cfg{Global: true}, Script: []string{w}})
 		}
 	}
 	for w := range c16cmdCtor {
 		if _, ok := interpreter.DebugCommandsMap[w]; !ok {
-			c.Violate("model-vocabulary", "command "+w+" of the model is not in DebugCommandsMap", c16desc{c16cfg{Global: true}, []string{w}})
+			c.Violate("model-vocabulary", "command "+w+" of the model is not in DebugCommandsMap", c16desc{Cfg: c16cfg{Global: true}, Script: []string{w}})
 		}
 	}
 
@@ -809,20 +814,20 @@ func runC16(c *Ctx) error {
 
 	// corpus: witnesses of the repaired defects first
 	corpus := []c16desc{
-		{c16cfg{Global: true}, []string{"lockstate"}},
-		{c16cfg{Global: true}, []string{"break " + c16bpTop, "!start", "cont 1 stepout"}},
-		{c16cfg{Global: true}, []string{"break " + c16bpNested, "!start", "cont 1 stepout", "cont 1 stepout"}},
-		{c16cfg{Global: true}, []string{"break " + c16bpTop, "!start", "inject 1 a f(1)"}},
-		{c16cfg{Global: true}, []string{"break " + c16bpNested, "!start", "inject 1 x g(2)"}},
-		{c16cfg{Global: true, DoErr: true}, []string{"!start", "describe 1"}},
-		{c16cfg{Global: true, DoErr: true}, []string{"!start", "status"}},
-		{c16cfg{Global: true}, []string{"breakonstart", "!start", "lockstate"}},
-		{c16cfg{}, []string{"lockstate", "extract 1 a b", "inject 1 a 1"}},
+		{Cfg: c16cfg{Global: true}, Script: []string{"lockstate"}},
+		{Cfg: c16cfg{Global: true}, Script: []string{"break " + c16bpTop, "!start", "cont 1 stepout"}},
+		{Cfg: c16cfg{Global: true}, Script: []string{"break " + c16bpNested, "!start", "cont 1 stepout", "cont 1 stepout"}},
+		{Cfg: c16cfg{Global: true}, Script: []string{"break " + c16bpTop, "!start", "inject 1 a f(1)"}},
+		{Cfg: c16cfg{Global: true}, Script: []string{"break " + c16bpNested, "!start", "inject 1 x g(2)"}},
+		{Cfg: c16cfg{Global: true, DoErr: true}, Script: []string{"!start", "describe 1"}},
+		{Cfg: c16cfg{Global: true, DoErr: true}, Script: []string{"!start", "status"}},
+		{Cfg: c16cfg{Global: true}, Script: []string{"breakonstart", "!start", "lockstate"}},
+		{Cfg: c16cfg{}, Script: []string{"lockstate", "extract 1 a b", "inject 1 a 1"}},
 		// continue a thread that is not suspended but still has its interrogation state, repeatedly
-		{c16cfg{Global: true}, []string{"break " + c16bpLast, "!start", "cont 1 resume", "cont 1 resume", "cont 1 stepover", "break " + c16bpTop}},
-		{c16cfg{Global: true, HoldIn: true}, []string{"break " + c16bpNested, "!start", "cont 1 stepout", "cont 1 stepout", "cont 1 resume", "rmbreak src"}},
+		{Cfg: c16cfg{Global: true}, Script: []string{"break " + c16bpLast, "!start", "cont 1 resume", "cont 1 resume", "cont 1 stepover", "break " + c16bpTop}},
+		{Cfg: c16cfg{Global: true, HoldIn: true}, Script: []string{"break " + c16bpNested, "!start", "cont 1 stepout", "cont 1 stepout", "cont 1 resume", "rmbreak src"}},
 		// a failing inject expression, then further commands
-		{c16cfg{Global: true}, []string{"break " + c16bpTop, "!start", "inject 1 a 1+", "inject 1 a )", "inject 1 a 1", "status"}},
+		{Cfg: c16cfg{Global: true}, Script: []string{"break " + c16bpTop, "!start", "inject 1 a 1+", "inject 1 a )", "inject 1 a 1", "status"}},
 	}
 	for _, d := range corpus {
 		c16run(c, d.Cfg, d.Script, 0)
@@ -917,6 +922,9 @@ func runC16(c *Ctx) error {
 		c16run(c, cfg, script, 0)
 	}
 	c.Extra["random_scenarios"] = nscn
+
+	// commands while other threads run and make function calls (child processes)
+	c16streams(c)
 	c.Exhaustive = false
 	return nil
 }
